@@ -117,6 +117,19 @@ pub fn open_flow(
                 }
             }
 
+            // when the flow is funded with the same denom the fee is paid in, the coins sent must
+            // cover exactly the fee plus the flow amount that is being recorded
+            if let AssetInfo::NativeToken {
+                denom: flow_asset_denom,
+            } = &flow_asset.info
+            {
+                if *flow_asset_denom == flow_fee_denom
+                    && paid_amount != flow_fee.amount.checked_add(flow_asset.amount)?
+                {
+                    return Err(ContractError::FlowAssetNotSent);
+                }
+            }
+
             // send fee to fee collector
             messages.push(
                 BankMsg::Send {
